@@ -90,6 +90,10 @@ func modes(p *world.PKI) []*mode {
 	kxs := []kxDef{
 		{"cert", "ecdhe", [2]dtls.CipherSuiteID{dtls.TLS_ECDHE_ECDSA_WITH_AES_128_GCM_SHA256, dtls.TLS_ECDHE_ECDSA_WITH_CHACHA20_POLY1305_SHA256}, dtls.TLS_ECDHE_ECDSA_WITH_AES_256_CBC_SHA, false, false},
 		{"certca", "ecdhe", [2]dtls.CipherSuiteID{dtls.TLS_ECDHE_ECDSA_WITH_AES_128_GCM_SHA256, dtls.TLS_ECDHE_ECDSA_WITH_CHACHA20_POLY1305_SHA256}, dtls.TLS_ECDHE_ECDSA_WITH_AES_256_CBC_SHA, false, true},
+		// every PRF hash and record-protection kind at least once: the Finished computation takes the hash from the
+		// negotiated suite, so a SHA-384 suite exercises a different verify_data path than the SHA-256 ones
+		{"cert384", "ecdhe", [2]dtls.CipherSuiteID{dtls.TLS_ECDHE_ECDSA_WITH_AES_256_GCM_SHA384, dtls.TLS_ECDHE_ECDSA_WITH_AES_128_GCM_SHA256}, dtls.TLS_ECDHE_ECDSA_WITH_AES_256_CBC_SHA, false, false},
+		{"certcbc", "ecdhe", [2]dtls.CipherSuiteID{dtls.TLS_ECDHE_ECDSA_WITH_AES_256_CBC_SHA, dtls.TLS_ECDHE_ECDSA_WITH_AES_128_CCM}, dtls.TLS_ECDHE_ECDSA_WITH_AES_128_GCM_SHA256, false, false},
 		{"psk", "psk", [2]dtls.CipherSuiteID{dtls.TLS_PSK_WITH_AES_128_GCM_SHA256, dtls.TLS_PSK_WITH_AES_128_CCM_8}, dtls.TLS_PSK_WITH_AES_128_CBC_SHA256, true, false},
 		// the second suite is a plain-PSK one: steering the suite here would also remove forward secrecy
 		{"ecdhepsk", "ecdhepsk", [2]dtls.CipherSuiteID{dtls.TLS_ECDHE_PSK_WITH_AES_128_CBC_SHA256, dtls.TLS_PSK_WITH_AES_128_GCM_SHA256}, dtls.TLS_PSK_WITH_AES_128_CCM_8, true, false},
